@@ -1,68 +1,152 @@
-(* C16: set_delay and the info round trip, on an abstract record model of nodes and connections *)
-From Coq Require Import List Arith ZArith Bool String Lia.
+(* C16 model, part 2: node / connection configuration.  rex/node.py: BaseNode.__init__, Connection.__init__, connect,
+   both set_delay methods, Connection.info, BaseNode.info, from_info, connect_from_info.
+   Names are integers, times integer ticks, delay distributions opaque.  Proofs are in NodeCfgLaws.v. *)
+From Coq Require Import List ZArith Bool.
+From Rex Require Import Phase.
 Import ListNotations.
 Open Scope Z_scope.
 
+(* which variant of the source is modelled: all false = the code as the property describes it; a true switch is one
+   historic defect (DESIGN 7: F3 at its two call sites, F11).  The kernel translator decides which variant /repo is. *)
+Record variant := { v_sd_node : bool; v_sd_conn : bool; v_cfi_key : bool }.
+Definition v_ok : variant := {| v_sd_node := false; v_sd_conn := false; v_cfi_key := false |}.
+
 Section Cfg.
-Variable dist : Type.      (* delay distributions, opaque *)
+Variable D : Type.           (* delay distributions *)
+Variable q99 : D -> Z.       (* float(dist.quantile(0.99)): the default expected delay *)
+Variable d0 : D.             (* the default distribution StaticDist(Normal(0, 0)) *)
 
-Record connection := { c_out : string; c_blocking : bool; c_delay : Z; c_dist : dist; c_window : nat;
-                       c_skip : bool; c_jitter : bool; c_name : string (* input (shadow) name *) }.
-Record nodecfg := { n_name : string; n_rate : Z; n_delay : Z; n_dist : dist; n_advance : bool; n_sched : bool;
-                    n_inputs : list connection }.
+Record conn := { c_key : Z (* input name = key of node.inputs *); c_out : Z (* sender *); c_blocking : bool; c_delay : Z;
+                 c_dist : D; c_window : Z; c_skip : bool; c_jitter : Z }.
+Record node := { n_name : Z; n_rate : Z; n_delay : Z; n_dist : D; n_advance : bool; n_sched : Z; n_inputs : list conn }.
+Definition graph := list node.
 
-(* the repaired set_delay:  x = arg if arg is not None else x *)
-Definition set_delay_node (n : nodecfg) (d : option dist) (e : option Z) : nodecfg :=
-  {| n_name := n_name n; n_rate := n_rate n; n_delay := match e with Some v => v | None => n_delay n end;
-     n_dist := match d with Some v => v | None => n_dist n end; n_advance := n_advance n; n_sched := n_sched n;
-     n_inputs := n_inputs n |}.
-(* the pinned code:  self.delay_dist = self.delay_dist if delay_dist is not None else self.delay_dist *)
-Definition set_delay_node_pinned (n : nodecfg) (d : option dist) (e : option Z) : nodecfg :=
-  {| n_name := n_name n; n_rate := n_rate n; n_delay := match e with Some v => v | None => n_delay n end;
-     n_dist := match d with Some _ => n_dist n | None => n_dist n end; n_advance := n_advance n; n_sched := n_sched n;
-     n_inputs := n_inputs n |}.
+(* ---- kernels ---- *)
+(* __init__:  self.delay_dist = delay_dist if delay_dist is not None else <default>
+              self.delay = delay if delay is not None else float(self.delay_dist.quantile(0.99)) *)
+Definition init_dist (arg : option D) : D := match arg with Some d => d | None => d0 end.
+Definition init_delay (dist : D) (arg : option Z) : Z := match arg with Some v => v | None => q99 dist end.
+(* set_delay:  self.delay_dist = <delay_dist> if delay_dist is not None else self.delay_dist   (defect switch: <self.delay_dist>)
+               self.delay = delay if delay is not None else self.delay *)
+Definition sd_dist (bug : bool) (cur : D) (arg : option D) : D :=
+  match arg with Some v => if bug then cur else v | None => cur end.
+Definition sd_delay (cur : Z) (arg : option Z) : Z := match arg with Some v => v | None => cur end.
+(* connect_from_info:  name=<info.name>   (defect switch: the dict key, which is the sender's name) *)
+Definition cfi_name (bug : bool) (key info_name : Z) : Z := if bug then key else info_name.
 
-Theorem set_delay_takes_effect n d e : n_dist (set_delay_node n (Some d) e) = d /\
-  (forall v, e = Some v -> n_delay (set_delay_node n (Some d) e) = v).
-Proof. split; [reflexivity|intros v ->; reflexivity]. Qed.
-Theorem set_delay_none_keeps n : set_delay_node n None None = n.
-Proof. destruct n; reflexivity. Qed.
-(* the pinned code ignores the distribution argument: a witness whenever two distributions differ *)
-Theorem set_delay_pinned_refuted n d : d <> n_dist n -> n_dist (set_delay_node_pinned n (Some d) None) <> d.
-Proof. simpl. congruence. Qed.
+(* ---- construction ---- *)
+Definition mk_node (name rate : Z) (delay : option Z) (dist : option D) (advance : bool) (sched : Z) : node :=
+  let d := init_dist dist in
+  {| n_name := name; n_rate := rate; n_delay := init_delay d delay; n_dist := d; n_advance := advance; n_sched := sched;
+     n_inputs := [] |}.
+Definition set_inputs (n : node) (l : list conn) : node :=
+  {| n_name := n_name n; n_rate := n_rate n; n_delay := n_delay n; n_dist := n_dist n; n_advance := n_advance n;
+     n_sched := n_sched n; n_inputs := l |}.
+(* Python dict assignment d[k] = v: replace in place when the key exists, append otherwise *)
+Fixpoint dict_set (c : conn) (l : list conn) : list conn :=
+  match l with [] => [c] | x :: l => if c_key x =? c_key c then c :: l else x :: dict_set c l end.
+(* BaseNode.connect (the receiver's side: self.inputs[name] = Connection(...)) *)
+Definition connect_node (n : node) (sender : Z) (blocking : bool) (delay : option Z) (dist : option D) (window : Z)
+           (skip : bool) (jitter : Z) (name : option Z) : node :=
+  let d := init_dist dist in
+  set_inputs n (dict_set {| c_key := match name with Some k => k | None => sender end; c_out := sender;
+                            c_blocking := blocking; c_delay := init_delay d delay; c_dist := d; c_window := window;
+                            c_skip := skip; c_jitter := jitter |} (n_inputs n)).
 
-(* ---- info / from_info / connect_from_info ---- *)
-Record inputinfo := { ii_window : nat; ii_blocking : bool; ii_skip : bool; ii_jitter : bool; ii_dist : dist;
-                      ii_delay : Z; ii_name : string; ii_output : string }.
-Record nodeinfo := { ni_name : string; ni_rate : Z; ni_delay : Z; ni_dist : dist; ni_advance : bool; ni_sched : bool;
-                     ni_inputs : list (string * inputinfo) (* keyed by the sender's name *) }.
-Definition info_of_conn (c : connection) : inputinfo :=
-  {| ii_window := c_window c; ii_blocking := c_blocking c; ii_skip := c_skip c; ii_jitter := c_jitter c;
-     ii_dist := c_dist c; ii_delay := c_delay c; ii_name := c_name c; ii_output := c_out c |}.
-Definition info (n : nodecfg) : nodeinfo :=
-  {| ni_name := n_name n; ni_rate := n_rate n; ni_delay := n_delay n; ni_dist := n_dist n; ni_advance := n_advance n;
-     ni_sched := n_sched n; ni_inputs := map (fun c => (c_out c, info_of_conn c)) (n_inputs n) |}.
-(* connect(..., name=X): the repaired code passes info.name, the pinned code passes the dict key (= sender's name) *)
-Definition conn_of_info (fixed : bool) (key : string) (i : inputinfo) : connection :=
-  {| c_out := ii_output i; c_blocking := ii_blocking i; c_delay := ii_delay i; c_dist := ii_dist i; c_window := ii_window i;
-     c_skip := ii_skip i; c_jitter := ii_jitter i; c_name := if fixed then ii_name i else key |}.
-Definition rebuild (fixed : bool) (i : nodeinfo) : nodecfg :=
-  {| n_name := ni_name i; n_rate := ni_rate i; n_delay := ni_delay i; n_dist := ni_dist i; n_advance := ni_advance i;
-     n_sched := ni_sched i; n_inputs := map (fun ki => conn_of_info fixed (fst ki) (snd ki)) (ni_inputs i) |}.
+Definition upd_node (g : graph) (x : Z) (f : node -> node) : graph := map (fun n => if n_name n =? x then f n else n) g.
+Definition find_node (g : graph) (x : Z) : option node := find (fun n => n_name n =? x) g.
 
-Theorem info_roundtrip n : rebuild true (info n) = n.
-Proof.
-  destruct n as [nm r d ds a s ins]. unfold rebuild, info; simpl. f_equal.
-  rewrite map_map. rewrite <- (map_id ins) at 2. apply map_ext. intros []; reflexivity.
-Qed.
-(* pinned: the shadow name is lost whenever it differs from the sender's name *)
-Theorem info_roundtrip_pinned_refuted n c : In c (n_inputs n) -> c_name c <> c_out c -> rebuild false (info n) <> n.
-Proof.
-  intros Hin Hne Heq. assert (H : n_inputs (rebuild false (info n)) = n_inputs n) by (rewrite Heq; reflexivity).
-  unfold rebuild, info in H; simpl in H. rewrite map_map in H.
-  assert (Hc : In c (map (fun x => conn_of_info false (fst (c_out x, info_of_conn x)) (snd (c_out x, info_of_conn x))) (n_inputs n)))
-    by (rewrite H; exact Hin).
-  apply in_map_iff in Hc. destruct Hc as [x [Hx _]]. subst c. simpl in Hne. congruence.
-Qed.
+Definition set_delay_node1 (v : variant) (n : node) (dist : option D) (delay : option Z) : node :=
+  {| n_name := n_name n; n_rate := n_rate n; n_delay := sd_delay (n_delay n) delay; n_dist := sd_dist (v_sd_node v) (n_dist n) dist;
+     n_advance := n_advance n; n_sched := n_sched n; n_inputs := n_inputs n |}.
+Definition set_delay_conn1 (v : variant) (c : conn) (dist : option D) (delay : option Z) : conn :=
+  {| c_key := c_key c; c_out := c_out c; c_blocking := c_blocking c; c_delay := sd_delay (c_delay c) delay;
+     c_dist := sd_dist (v_sd_conn v) (c_dist c) dist; c_window := c_window c; c_skip := c_skip c; c_jitter := c_jitter c |}.
+
+(* ---- the operations a user performs on a set of nodes ---- *)
+Inductive op :=
+| OConnect (recv sender : Z) (blocking : bool) (delay : option Z) (dist : option D) (window : Z) (skip : bool) (jitter : Z)
+           (name : option Z)                                             (* nodes[recv].connect(nodes[sender], ...) *)
+| OSetNode (x : Z) (dist : option D) (delay : option Z)                  (* nodes[x].set_delay(dist, delay) *)
+| OSetConn (recv key : Z) (dist : option D) (delay : option Z).          (* nodes[recv].inputs[key].set_delay(dist, delay) *)
+
+Definition apply_op (v : variant) (g : graph) (o : op) : graph :=
+  match o with
+  | OConnect r s b de di w sk j nm => upd_node g r (fun n => connect_node n s b de di w sk j nm)
+  | OSetNode x di de => upd_node g x (fun n => set_delay_node1 v n di de)
+  | OSetConn r k di de => upd_node g r (fun n => set_inputs n (map (fun c => if c_key c =? k then set_delay_conn1 v c di de else c)
+                                                                   (n_inputs n)))
+  end.
+Definition apply_ops (v : variant) (g : graph) (os : list op) : graph := fold_left (apply_op v) os g.
+
+(* ---- phases of a configuration ---- *)
+Definition inp_of_conn (c : conn) : inp := {| i_out := c_out c; i_delay := c_delay c; i_skip := c_skip c |}.
+Definition g_inputs (g : graph) (x : Z) : list inp :=
+  match find_node g x with Some n => map inp_of_conn (n_inputs n) | None => [] end.
+Definition g_ndelay (g : graph) (x : Z) : Z := match find_node g x with Some n => n_delay n | None => 0 end.
+Definition g_rate (g : graph) (x : Z) : Z := match find_node g x with Some n => n_rate n | None => 0 end.
+(* node.phase, None = RecursionError("Algebraic loop detected ...").  More fuel than nodes: PhaseLaws.phase_none_iff_loops *)
+Definition gphase (g : graph) (x : Z) : option Z := phase (g_inputs g) (g_ndelay g) (S (length g)) x.
+
+(* ---- infos ---- *)
+Record inputinfo := { ii_rate : Z; ii_window : Z; ii_blocking : bool; ii_skip : bool; ii_jitter : Z; ii_phase : Z; ii_dist : D;
+                      ii_delay : Z; ii_name : Z; ii_output : Z }.
+Record nodeinfo := { ni_rate : Z; ni_advance : bool; ni_sched : Z; ni_phase : Z; ni_dist : D; ni_delay : Z;
+                     ni_inputs : list (Z * inputinfo) (* a dict keyed by the SENDER's name *); ni_name : Z }.
+
+(* Connection.info; None = Connection.phase raised *)
+Definition conn_info (g : graph) (c : conn) : option inputinfo :=
+  match gphase g (c_out c) with
+  | None => None
+  | Some p => Some {| ii_rate := g_rate g (c_out c); ii_window := c_window c; ii_blocking := c_blocking c; ii_skip := c_skip c;
+                      ii_jitter := c_jitter c; ii_phase := conn_phase (phase_output p (g_ndelay g (c_out c))) (c_delay c);
+                      ii_dist := c_dist c; ii_delay := c_delay c; ii_name := c_key c; ii_output := c_out c |}
+  end.
+Fixpoint all_some {X} (l : list (option X)) : option (list X) :=
+  match l with [] => Some [] | None :: _ => None
+  | Some x :: l => match all_some l with Some r => Some (x :: r) | None => None end end.
+Fixpoint kv_set {V} (k : Z) (v : V) (l : list (Z * V)) : list (Z * V) :=
+  match l with [] => [(k, v)] | (k', v') :: l => if k' =? k then (k, v) :: l else (k', v') :: kv_set k v l end.
+(* the dict comprehension {c.output_node.name: c.info for i, c in self.inputs.items()} *)
+Definition kv_of_list {V} (l : list (Z * V)) : list (Z * V) := fold_left (fun d kv => kv_set (fst kv) (snd kv) d) l [].
+(* BaseNode.info; None = it raised (its own phase or the phase of one of its connections) *)
+Definition node_info (g : graph) (n : node) : option nodeinfo :=
+  match gphase g (n_name n), all_some (map (conn_info g) (n_inputs n)) with
+  | Some p, Some iis =>
+      Some {| ni_rate := n_rate n; ni_advance := n_advance n; ni_sched := n_sched n; ni_phase := p; ni_dist := n_dist n;
+              ni_delay := n_delay n; ni_inputs := kv_of_list (map (fun ii => (ii_output ii, ii)) iis); ni_name := n_name n |}
+  | _, _ => None
+  end.
+Definition infos (g : graph) : option (list nodeinfo) := all_some (map (node_info g) g).
+
+(* ---- rebuilding from infos ---- *)
+(* cls.from_info(info) *)
+Definition node_of_info (i : nodeinfo) : node :=
+  mk_node (ni_name i) (ni_rate i) (Some (ni_delay i)) (Some (ni_dist i)) (ni_advance i) (ni_sched i).
+(* new.connect_from_info(info.inputs, nodes): one connect per dict item *)
+Definition rebuild_node (v : variant) (i : nodeinfo) : node :=
+  fold_left (fun n kv => let ii := snd kv in
+               connect_node n (ii_output ii) (ii_blocking ii) (Some (ii_delay ii)) (Some (ii_dist ii)) (ii_window ii)
+                            (ii_skip ii) (ii_jitter ii) (Some (cfi_name (v_cfi_key v) (fst kv) (ii_name ii))))
+            (ni_inputs i) (node_of_info i).
+Definition rebuild (v : variant) (is : list nodeinfo) : graph := map (rebuild_node v) is.
+
+(* ---- what a simulated episode draws: the k-th computation delay of node x / communication delay of connection (x, key) ---- *)
+Section Sim.
+Variable draw : D -> nat -> Z.       (* the sample stream of a distribution after reset *)
+Definition step_delay (g : graph) (x : Z) (k : nat) : option Z := option_map (fun n => draw (n_dist n) k) (find_node g x).
+Definition find_conn (n : node) (key : Z) : option conn := find (fun c => c_key c =? key) (n_inputs n).
+Definition msg_delay (g : graph) (x key : Z) (k : nat) : option Z :=
+  match find_node g x with Some n => option_map (fun c => draw (c_dist c) k) (find_conn n key) | None => None end.
+End Sim.
+
+(* ---- well-formed configurations: unique node names, unique input names and at most one connection per sender at
+   every node, every sender is a node ---- *)
+Definition wf_node (g : graph) (n : node) : Prop :=
+  NoDup (map c_key (n_inputs n)) /\ NoDup (map c_out (n_inputs n)) /\
+  forall c, In c (n_inputs n) -> In (c_out c) (map n_name g).
+Definition wf (g : graph) : Prop := NoDup (map n_name g) /\ forall n, In n g -> wf_node g n.
 End Cfg.
-Print Assumptions info_roundtrip.
+
+Arguments mk_node {D}. Arguments apply_ops {D}. Arguments gphase {D}. Arguments infos {D}. Arguments rebuild {D}.
+Arguments node_info {D}. Arguments rebuild_node {D}.
